@@ -237,8 +237,12 @@ def generate(sc, lox, mod, cases, timeout=120, prefix="l"):
         d = os.path.join(mod, pkg)
         os.makedirs(d, exist_ok=True)
         main, peek, nopeek = render_go(pkg)
-        open(os.path.join(d, "l.lox"), "w").write(case.get("lox_text") or render_lox(case))
-        open(os.path.join(d, "lex.go"), "w").write(main)
+        if case.get("lox_files"):
+            for fn, txt in case["lox_files"].items():
+                open(os.path.join(d, fn), "w").write(txt)
+        else:
+            open(os.path.join(d, "l.lox"), "w").write(case.get("lox_text") or render_lox(case))
+        open(os.path.join(d, "lex.go"), "w").write(case.get("go_text", main).replace("PKGNAME", pkg))
         open(os.path.join(d, "peek.go"), "w").write(peek)
         open(os.path.join(d, "nopeek.go"), "w").write(nopeek)
         try:
@@ -250,6 +254,7 @@ def generate(sc, lox, mod, cases, timeout=120, prefix="l"):
              "panic": ("panic:" in err or "goroutine " in err)}
         if g["ok"]:
             g["tables"] = scrape_lexer(os.path.join(d, "lexer.gen.go"))
+            g["parser_src"] = os.path.join(d, "parser.gen.go")
             g["base"] = scrape_base(os.path.join(d, "base.gen.go"))
         case["gen"] = g
         return g
@@ -274,6 +279,7 @@ import (
 type subject struct {
 	New  func() simplelexer.StateMachine
 	Peek func(sm simplelexer.StateMachine) (int, int, int)
+	Name func(t int) string
 }
 
 var subjects = map[string]subject{
@@ -286,6 +292,12 @@ type job struct {
 	MaxLen   int     `json:"maxlen"`
 	FullLen  int     `json:"fulllen"`
 	Extra    [][]int `json:"extra"`    // inputs given as rune lists (negative = raw byte)
+	Names    int     `json:"names"`    // > 0: also report _TokenToString(v) for v in -1..Names
+}
+
+type nameRec struct {
+	Case  string     `json:"case"`
+	Names [][2]any   `json:"names"`
 }
 
 type outRec struct {
@@ -401,6 +413,13 @@ func main() {
 			fmt.Fprintln(os.Stderr, "unknown case", j.Case)
 			os.Exit(2)
 		}
+		if j.Names > 0 {
+			nr := nameRec{Case: j.Case}
+			for v := -1; v <= j.Names; v++ {
+				nr.Names = append(nr.Names, [2]any{v, s.Name(v)})
+			}
+			enc.Encode(nr)
+		}
 		var rec func(w []int)
 		rec = func(w []int) {
 			enc.Encode(runOne(s, j.Case, w, len(w) <= j.FullLen))
@@ -428,7 +447,7 @@ def build_runner(sc, mod, cases, name="runl", tags="peekstate"):
     imports = "\n".join('\t%s "xv/%s"' % (c["gen"]["pkg"], c["gen"]["pkg"]) for c in ok)
     table = "\n".join(
         '\t"%(p)s": {New: func() simplelexer.StateMachine { return %(p)s.NewSM() }, '
-        'Peek: func(sm simplelexer.StateMachine) (int, int, int) { return %(p)s.Peek(sm.(*%(p)s.SM)) }},' % {"p": c["gen"]["pkg"]}
+        'Peek: func(sm simplelexer.StateMachine) (int, int, int) { return %(p)s.Peek(sm.(*%(p)s.SM)) }, Name: %(p)s.TokName},' % {"p": c["gen"]["pkg"]}
         for c in ok)
     d = os.path.join(mod, name)
     os.makedirs(d, exist_ok=True)
